@@ -78,6 +78,8 @@ EXTRA_c07 := wrap_mmap.o
 LDX_c07 := $(WRAP_MMAP)
 EXTRA_c11 := wrap_mmap.o
 LDX_c11 := $(WRAP_MMAP)
+EXTRA_c16 := wrap_perturb.o
+LDX_c16 := -Wl,--wrap=pthread_spin_lock,--wrap=sem_post,--wrap=sem_wait
 EXTRA_c17 := wrap_random.o
 LDX_c17 := $(WRAP_RANDOM)
 EXTRA_c18 := wrap_random.o
